@@ -1,18 +1,78 @@
-import FiberModel.C09.Spec
+import FiberModel.C09.ParseLemmas
+/-
+C09 — property theorems (only). Helper lemmas: SortLemmas, SelectLemmas, ParseLemmas.
+
+Quantifiers: every header (`Bytes`, a superset of byte strings), every offer list, every
+acceptability predicate `acc` (Go's `isAccepted` argument), every `ParseFloat` table `tab` and
+`GetMIME` table `mime`.
+-/
 namespace C09
 open B
 
-theorem findOffer_mem (acc : Bytes → Bytes → Params → Bool) (rs : List Range) (offers : List Bytes) :
-    findOffer acc rs offers = [] ∨ findOffer acc rs offers ∈ offers := by
-  induction rs with
-  | nil => simp [findOffer]
-  | cons r rs ih =>
-    unfold findOffer
-    split
-    · rename_i o h; right; exact List.mem_of_find?_eq_some h
-    · exact ih
+/-! ### the sort -/
 
-/-- `Accepts*` return one of the offers or nothing. -/
+/-- `sortAcceptedTypes` (binary insertion as written) returns a permutation of its input that is
+    sorted by the strict 4-key order (quality desc, specificity desc, #params desc, position asc):
+    every element is strictly preferred to every later one. Hypotheses: qualities are finite
+    (no NaN/Inf) and positions are pairwise distinct — both hold for what `getOffer` builds. -/
+theorem sort_is_sorted_perm {E : Nat} (l : List Range) (hok : AllOk E l)
+    (hd : l.Pairwise fun a c => a.order ≠ c.order) :
+    (sortAccepted l).Perm l ∧ (sortAccepted l).Pairwise (fun a c => after c a = true) := by
+  refine ⟨sortAccepted_perm l, ?_⟩
+  have := foldl_sorted (E := E) l [] (by intro r hr; simp at hr) hok (by simp [Sorted]) (by simpa using hd)
+  simpa [sortAccepted, Sorted] using this
+
+/-- the binary search returns the insertion point on a sorted prefix: everything before it is
+    preferred to `x`, nothing from it on is -/
+theorem bsearch_is_insertion_point {E : Nat} (pre : List Range) (x : Range) (hok : AllOk E pre) (hx : x.ok E)
+    (hs : pre.Pairwise fun a c => after c a = true) :
+    (∀ m ∈ pre.take (bsearch pre x (pre.length + 1) 0 pre.length), after x m = true) ∧
+    (∀ m ∈ pre.drop (bsearch pre x (pre.length + 1) 0 pre.length), after x m = false) := by
+  obtain ⟨_, h1, h2⟩ := bsearch_spec pre x hok hx hs
+  refine ⟨fun m hm => (after_iff hx (hok m (List.mem_of_mem_take hm))).2 (h1 m hm), fun m hm => ?_⟩
+  have := h2 m hm
+  rw [← after_iff hx (hok m (List.mem_of_mem_drop hm))] at this
+  simpa using this
+
+-- non-vacuity: three ranges, equal quality 0.5 twice (written 0.5 and 0.50), distinct positions
+example :
+    let r1 : Range := { spec := b "text/*", q := .fin 5 1, spcf := 2, params := [], order := 1 }
+    let r2 : Range := { spec := b "text/html", q := .fin 50 2, spcf := 3, params := [], order := 2 }
+    let r3 : Range := { spec := b "*/*", q := .fin 1 0, spcf := 1, params := [], order := 3 }
+    AllOk 2 [r1, r2, r3] ∧ ([r1, r2, r3].Pairwise fun a c => a.order ≠ c.order) ∧
+    sortAccepted [r1, r2, r3] = [r3, r2, r1] := by
+  refine ⟨?_, by decide, by decide⟩
+  intro r hr
+  simp only [List.mem_cons, List.not_mem_nil, or_false] at hr
+  rcases hr with rfl | rfl | rfl <;> exact ⟨rfl, by decide⟩
+
+/-! ### selection -/
+
+/-- Level A of `getOffer_eq_spec`: for every non-empty header and offer list, `getOffer` (parse,
+    binary-insertion sort, nested search) returns what the property's rule `select` (greatest
+    accepting range under the 4-key order, its first acceptable offer) returns on the parsed ranges.
+    `tabFinite`: `ParseFloat` yields no NaN/Inf on this header's q texts. -/
+theorem getOffer_eq_select (tab : Bytes → Option Qual) (ht : tabFinite tab) (acc : Bytes → Bytes → Params → Bool)
+    (header : Bytes) (offers : List Bytes) (hh : header ≠ []) (ho : offers ≠ []) :
+    getOffer tab acc header offers = select (accS acc) ((parseRanges tab header).map toS) offers := by
+  obtain ⟨o0, os, rfl⟩ := List.exists_cons_of_ne_nil ho
+  have hprops := parseRangesFrom_props tab (mediaRanges header) 0
+  let rs := parseRanges tab header
+  let E := (rs.map fun r => expOf r.q).sum
+  have hok : AllOk E rs := fun r hr => ⟨(hprops.1 r hr).2.2.2 ht, expOf_le_sum hr⟩
+  have hsp : ∀ r ∈ rs, r.spcfOK := fun r hr => (hprops.1 r hr).2.1
+  have hd : rs.Pairwise fun a c => a.order ≠ c.order := hprops.2.imp fun h => Nat.ne_of_lt h
+  have key := findOffer_sorted_eq_select acc rs (o0 :: os) hok hsp hd
+  unfold getOffer
+  simp only [beq_iff_eq, hh, if_false]
+  show findOffer acc (if rs.length > 1 then sortAccepted rs else rs) (o0 :: os) = _
+  by_cases hlen : rs.length > 1
+  · simp only [hlen, if_true]; exact key
+  · simp only [hlen, if_false]
+    rw [sortAccepted_short rs hlen] at key
+    exact key
+
+/-- `Accepts*` return one of the offers or nothing — for arbitrary bytes, any tables. -/
 theorem result_is_offer_or_empty (tab : Bytes → Option Qual) (acc : Bytes → Bytes → Params → Bool)
     (header : Bytes) (offers : List Bytes) :
     getOffer tab acc header offers = [] ∨ getOffer tab acc header offers ∈ offers := by
@@ -23,6 +83,107 @@ theorem result_is_offer_or_empty (tab : Bytes → Option Qual) (acc : Bytes → 
     simp only
     split
     · right; simp
-    · exact findOffer_mem _ _ _
+    · generalize (if (parseRanges tab header).length > 1 then sortAccepted (parseRanges tab header)
+        else parseRanges tab header) = L
+      induction L with
+      | nil => simp [findOffer]
+      | cons r rs ih =>
+        unfold findOffer
+        split
+        · rename_i o h; right; exact List.mem_of_find?_eq_some h
+        · exact ih
+
+/-- a range whose quality parses to zero never reaches the sort or the search -/
+theorem q0_never_candidate (tab : Bytes → Option Qual) (header : Bytes) :
+    ∀ r ∈ parseRanges tab header, r.q.isZero = false :=
+  fun r hr => ((parseRangesFrom_props tab (mediaRanges header) 0).1 r hr).2.2.1
+
+/-- an absent (or empty) header selects the first offer -/
+theorem absent_header_first_offer (tab : Bytes → Option Qual) (acc : Bytes → Bytes → Params → Bool)
+    (o0 : Bytes) (os : List Bytes) : getOffer tab acc [] (o0 :: os) = o0 := by
+  simp [getOffer]
+
+/-! ### parameters -/
+
+theorem paramsMatch_present (sp : Params) (op : Bytes) (h : paramsMatch sp op = true) :
+    paramsPresent sp (visitParams op) = true := by
+  unfold paramsMatch at h
+  unfold paramsPresent
+  simp only [List.all_eq_true] at h ⊢
+  intro kv hkv
+  have := h kv hkv
+  obtain ⟨k, v⟩ := kv
+  simp only at this ⊢
+  split at this
+  · rename_i p hp
+    rw [List.any_eq_true]
+    refine ⟨p, List.mem_of_find?_eq_some hp, ?_⟩
+    have hk := List.find?_some hp
+    simp [hk, this]
+  · cases this
+
+/-- media-type parameters of an accepting range are all present in the offer
+    (names and values compared ASCII case-insensitively) -/
+theorem range_params_subset_of_offer (mime : Bytes → Bytes) (spec offer : Bytes) (sp : Params)
+    (h : acceptsOfferType mime spec offer sp = true) :
+    paramsPresent sp (visitParams (splitOffer offer).2) = true := by
+  unfold acceptsOfferType at h
+  simp only at h
+  apply paramsMatch_present
+  repeat' split at h
+  all_goals first | exact h | exact Bool.noConfusion h
+
+-- non-vacuity: `text/plain;a=1` accepts the offer `text/plain;b=2;A=1`, not `text/plain;b=2`
+example : acceptsOfferType (fun _ => []) (b "text/plain") (b "text/plain;b=2;A=1") [(b "a", b "1")] = true := by decide
+example : acceptsOfferType (fun _ => []) (b "text/plain") (b "text/plain;b=2") [(b "a", b "1")] = false := by decide
+
+/-! ### Format -/
+
+/-- `Format` answers 406 exactly when there are handlers, the header is present, no handler is a
+    "default" and negotiation over the handlers' media types selects nothing; and then no handler runs -/
+theorem format_406 (tab : Bytes → Option Qual) (mime : Bytes → Bytes) (header : Bytes) (types : List Bytes) :
+    (format tab mime header types).status = 406 ↔
+      (types ≠ [] ∧ header ≠ [] ∧ ¬ sDefault ∈ types ∧
+       getOffer tab (acceptsOfferType mime) header (types.filter (· != sDefault)) = []) := by
+  unfold format
+  cases types with
+  | nil => simp
+  | cons t0 ts =>
+    simp only
+    by_cases hh : header = []
+    · simp [hh]
+    · by_cases ha : getOffer tab (acceptsOfferType mime) header (List.filter (· != sDefault) (t0 :: ts)) = []
+      · cases hl : lastIndexOf (t0 :: ts) sDefault with
+        | none =>
+          have := (lastIndexOf_none_iff _ _).1 hl
+          simp [hh, ha, this]
+        | some i =>
+          have : sDefault ∈ (t0 :: ts) := by
+            have h2 := lastIndexOf_none_iff (t0 :: ts) sDefault
+            rw [hl] at h2
+            by_cases hm : sDefault ∈ (t0 :: ts)
+            · exact hm
+            · exact absurd (h2.2 hm) (by simp)
+          simp [hh, ha, this]
+      · simp only [beq_iff_eq, hh, ha, if_false]
+        constructor
+        · intro h; split at h <;> simp at h
+        · intro h; exact h.2.2.2.elim
+
+/-- no handler runs when `Format` answers 406 -/
+theorem format_406_no_handler (tab : Bytes → Option Qual) (mime : Bytes → Bytes) (header : Bytes) (types : List Bytes)
+    (h : (format tab mime header types).status = 406) : (format tab mime header types).handler = none := by
+  unfold format at h ⊢
+  cases types with
+  | nil => rfl
+  | cons t0 ts =>
+    simp only at h ⊢
+    repeat' split at h
+    all_goals first | (simp at h; done) | skip
+    all_goals (repeat' split) <;> simp_all
+
+-- non-vacuity of `format_406`
+example : (format (fun _ => none) (fun _ => []) (b "image/png") [b "text/html", b "application/json"]).status = 406 := by decide
+example : (format (fun _ => none) (fun _ => []) (b "image/png") [b "text/html", b "default"]).status = 200 := by decide
 
 end C09
